@@ -60,7 +60,7 @@ def record_layout(f, a=None):
             if a is not None:
                 n = a.array_length()
                 el = a.element[k % n]
-                if line[76:78].strip() != el.upper():
+                if line[76:78].strip().upper() != str(el).upper():      # (the column; the value is the round trip's business)
                     return f"element columns 77-78 hold {line[76:78]!r}, expected {el!r}: {line!r}"
             k += 1
     return None
@@ -136,6 +136,10 @@ for ch in [["A", "B"], ["AB", "A"], ["ABCDE", "A"]]:
     R.check("chain id column", f"chain_id {ch}", {"chain_id": ch}, lambda ch=ch: roundtrip(make(chain_id=ch), must_accept=max(map(len, ch)) <= 1))
 for ic in [["", "A"], ["A", "B"], ["AB", ""]]:
     R.check("insertion code column", f"ins_code {ic}", {"ins_code": ic}, lambda ic=ic: roundtrip(make(ins_code=ic), must_accept=max(map(len, ic)) <= 1))
+for els in [["N", "C"], ["Zn", "Cl"], ["FE", "Fe"], ["Na", "H"], ["se", "C"]]:
+    # the element symbol is written as given into columns 77-78 and comes back as given (Zn, Cl, Fe are two-letter
+    # symbols whose second letter is lower case)
+    R.check("element column", f"element {els}", {"element": els}, lambda els=els: roundtrip(make(element=els), must_accept=True))
 for het in [[False, True], [True, True]]:
     R.check("record name", f"hetero {het}", {"hetero": het}, lambda het=het: roundtrip(make(hetero=het), must_accept=True))
 # stacks: every model comes back
